@@ -6,6 +6,7 @@ import (
 	"reflect"
 	"regexp"
 	"strings"
+	"unsafe"
 
 	"github.com/cockroachdb/redact"
 	"github.com/cockroachdb/redact/interfaces"
@@ -506,7 +507,13 @@ func c11nils(c *Ctx) {
 	var ne error
 	var ns fmtStringerNil
 	ops := []interface{}{nil, np, ne, ns, (*tPStringer)(nil), (*tPErr)(nil), []interface{}(nil), map[string]int(nil), (func())(nil), (chan int)(nil), redact.Safe(nil), redact.Unsafe(nil),
-		[]interface{}{nil}, map[string]interface{}{"k": nil}, map[interface{}]int{nil: 1, "a": 2, 3: 3}, map[error]string{nil: "n", tErr{"e"}: "e"}, tS2{nil, nil}, &tS2{}, reflect.Value{}, reflect.ValueOf((*int)(nil)), redact.RedactableString(""), redact.RedactableBytes(nil), (*redact.StringBuilder)(nil)}
+		[]interface{}{nil}, map[string]interface{}{"k": nil}, map[interface{}]int{nil: 1, "a": 2, 3: 3}, map[error]string{nil: "n", tErr{"e"}: "e"}, tS2{nil, nil}, &tS2{}, reflect.Value{}, reflect.ValueOf((*int)(nil)), redact.RedactableString(""), redact.RedactableBytes(nil), (*redact.StringBuilder)(nil),
+		// shapes on which reflection-based shortcuts fail: byte arrays that are not addressable, of a named element type, in
+		// unexported fields, behind interfaces; maps whose keys are compared by address
+		struct{ sum [4]byte }{[4]byte{1, 2, 0xe2, 4}}, struct{ Sum [4]tNUint8 }{}, tSNArr{[4]tNUint8{1, 2}, [4]tNUint8{3}}, map[string][2]byte{"k": {7, 8}}, []interface{}{[3]byte{1, 2, 3}, struct{ b [2]byte }{}},
+		map[unsafe.Pointer]int{unsafe.Pointer(&keyInts[0]): 1, unsafe.Pointer(&keyInts[1]): 2}, map[*int]string{&keyInts[0]: "a", &keyInts[2]: "b", nil: "n"},
+		map[chan int]int{keyChans[1]: 1, keyChans[2]: 2, nil: 0}, map[interface{}]int{unsafe.Pointer(&keyInts[0]): 1, unsafe.Pointer(&keyInts[1]): 2, keyChans[1]: 3, &keyInts[2]: 4},
+		map[[2]unsafe.Pointer]bool{{nil, unsafe.Pointer(&keyInts[0])}: true, {nil, unsafe.Pointer(&keyInts[1])}: false}}
 	var jobs [][2]int
 	for i := range ops {
 		for v := range allVerbs {
@@ -625,6 +632,6 @@ func runC11(c *Ctx) {
 	c11panics(c)
 	c11doublePanics(c)
 	c11withoutMarkers(c)
-	c.res.Bound = "rune edges: all 2048 surrogates + 18 boundary values; all 256 bytes; 5 buffer states x 4 implementations; 44 JoinTo operand types x 4 delimiters; every prefix of 40 hostile formats x 6 operand lists x 6 routes; 21 nil-ish operands x 58 verbs x 4 flag forms x 6 routes"
+	c.res.Bound = "rune edges: all 2048 surrogates + 18 boundary values; all 256 bytes; 5 buffer states x 4 implementations; 44 JoinTo operand types x 4 delimiters; every prefix of 40 hostile formats x 6 operand lists x 6 routes; 33 nil-ish and reflection-hostile operands x 58 verbs x 4 flag forms x 6 routes"
 	c.res.Assumptions = []string{"outside the claim, per the statement: Grow with a negative count, memory exhaustion; nil destinations/callbacks are programmer errors, not values to print", "a panic raised while printing a panic payload propagates, as in fmt (checked against fmt in C04)"}
 }
